@@ -155,7 +155,7 @@ class Oblig:
     def worklist(self, oblig, fi, role, what_ok, what_bad):
         """R10a with the verdict policy: a loop of another shape (recursion, comprehension) is `not understood`
         (ANALYSIS-ERROR), an understood worklist with a missing guard / mark is a violation."""
-        ok, why, info = is_worklist_closure(fi.node)
+        ok, why, info = is_worklist_closure(fi.node, helpers_of(self.eng.prog, fi))
         site = site_of(self.eng.prog, fi, fi.node)
         if ok:
             return self.rep.holds("R10a", oblig, fi.qname, role, what_ok, site=site)
@@ -218,7 +218,53 @@ def receivers(eng, cls_name, meth):
     return out
 
 
-def is_worklist_closure(fn_node):
+def helpers_of(prog, fi):
+    """name -> FunctionDef of the private helpers a function can call: methods visible from its class, functions of
+    its module."""
+    out = {}
+    if fi.cls is not None:
+        for q in fi.cls.mro:
+            c = prog.classes.get(q)
+            if c is not None:
+                for n, m in c.methods.items():
+                    out.setdefault(n, m.node)
+    for q, g in prog.functions.items():
+        if g.cls is None and g.module == fi.module and isinstance(g.node, ast.FunctionDef):
+            out.setdefault(g.name, g.node)
+    return out
+
+
+def _helper_pushes(lp, w, helpers):
+    """Pushes on the worklist done by a private helper that receives it as an argument: (push call, helper body as
+    scope, {helper parameter -> caller's argument text})."""
+    out = []
+    for c in ast.walk(lp):
+        if not isinstance(c, ast.Call):
+            continue
+        name = c.func.attr if isinstance(c.func, ast.Attribute) else c.func.id if isinstance(c.func, ast.Name) else None
+        h = (helpers or {}).get(name)
+        if h is None or not name.startswith("_"):
+            continue
+        params = [a.arg for a in h.args.posonlyargs + h.args.args]
+        is_static = any(isinstance(d, ast.Name) and d.id in ("staticmethod",) for d in h.decorator_list)
+        if isinstance(c.func, ast.Attribute) and not is_static and params:
+            params = params[1:]
+        amap = {}
+        for prm, a in zip(params, c.args):
+            amap[prm] = ast.unparse(a)
+        for kw in c.keywords:
+            if kw.arg:
+                amap[kw.arg] = ast.unparse(kw.value)
+        wparams = [prm for prm, txt in amap.items() if txt == w]
+        for wp in wparams:
+            for p in ast.walk(h):
+                if isinstance(p, ast.Call) and isinstance(p.func, ast.Attribute) and \
+                        p.func.attr in ("append", "put", "appendleft") and ast.unparse(p.func.value) == wp:
+                    out.append((p, h, amap))
+    return out
+
+
+def is_worklist_closure(fn_node, helpers=None):
     """R10a: `while W:` with W.pop()/popleft()/get(), a visited collection that only grows, every push guarded by a
     membership test on it with the mark on the same path.  Returns (ok, why, info)."""
     loops = [s for s in ast.walk(fn_node) if isinstance(s, ast.While)]
@@ -239,20 +285,28 @@ def is_worklist_closure(fn_node):
                 and c.func.attr in ("pop", "popleft", "get") and ast.unparse(c.func.value) == w]
         if not pops:
             continue
-        pushes = [c for c in ast.walk(lp) if isinstance(c, ast.Call) and isinstance(c.func, ast.Attribute)
+        pushes = [(c, lp, {}) for c in ast.walk(lp) if isinstance(c, ast.Call) and isinstance(c.func, ast.Attribute)
                   and c.func.attr in ("append", "put", "appendleft") and ast.unparse(c.func.value) == w]
+        pushes += _helper_pushes(lp, w, helpers)
         if not pushes:
+            passed = any(isinstance(c, ast.Call) and any(ast.unparse(a) == w for a in c.args) for c in ast.walk(lp))
+            if passed:
+                return False, "no worklist loop found", None      # handed to a callee the rule cannot see into
             return False, "worklist %s is never refilled inside the loop" % w, None
         # every push sits under a `not in P` test and P gets the pushed key (at push or at pop); of the membership
-        # tests that guard a push, the visited collection is one that is also grown inside the loop
-        grown = {ast.unparse(c.func.value) for c in ast.walk(lp) if isinstance(c, ast.Call)
-                 and isinstance(c.func, ast.Attribute) and c.func.attr in ("add", "update", "append")}
+        # tests that guard a push, the visited collection is one that is also grown (in the loop or by the helper)
+        def grows(scope, amap):
+            return {amap.get(ast.unparse(c.func.value), ast.unparse(c.func.value)) for c in ast.walk(scope)
+                    if isinstance(c, ast.Call) and isinstance(c.func, ast.Attribute)
+                    and c.func.attr in ("add", "update", "append")}
+        grown = grows(lp, {})
         visited = None
-        for push in pushes:
-            guards = _enclosing_not_in(lp, push)
+        for push, scope, amap in pushes:
+            guards = [amap.get(g, g) for g in _enclosing_not_in(scope, push)]
             if not guards:
                 return False, "push on %s is not guarded by a membership test on a visited collection" % w, push
-            good = [g for g in guards if g in grown and g != w]
+            g_all = grown | (grows(scope, amap) if scope is not lp else set())
+            good = [g for g in guards if g in g_all and g != w]
             if not good:
                 return False, "nothing is ever added to the visited collection %s inside the loop" % guards[0], push
             visited = good[0]
@@ -512,3 +566,16 @@ def min_len(e, pol, base_txt):
             if kind is ast.NotEq and n == 0:
                 return 1
     return None
+
+
+def both_answers(summ: Summary) -> bool:
+    """The predicate can answer True and False: it returns both constants on some paths, or some return value is not
+    a constant at all (`return all(...)`, `return not bad`, `return a and b`)."""
+    consts = set()
+    for ev in summ.events:
+        if ev.kind == "ret" and ev.value is not None:
+            if ev.value.has_const():
+                consts.add(ev.value.const)
+            else:
+                return True
+    return {True, False} <= consts
